@@ -185,6 +185,7 @@ def run_check(P, tier, seed, a):
         if env is None:
             inconclusive.append(f'{key}: solver said sat but produced no model')
             continue
+        env.update(summaries[rec['job']]['paths'][rec['path']].get('choices', {}))
         os.makedirs(replay_dir, exist_ok=True)
         fn = os.path.join(replay_dir, f'{job["entry"]}_{"_".join(str(x) for x in job.get("args", []))}_{rec["tag"]}_{rec["k"]}.vals'.replace('/', '_').replace(' ', '_'))
         fn = os.path.join(replay_dir, os.path.basename(fn))
